@@ -17,7 +17,7 @@ Definition start_res (s0 : st) (q : request) (s' : st) (res : result (option nat
       ((~ key_drawn s0 id /\ d = ([], None)) \/
        (exists k, q_cookie q = CKey k /\ view s0 k = Some (None, d) /\ (id = k \/ ~ key_drawn s0 id)))
   | Ok None => (forall n, q_cookie q <> COther n) -> apply_cookies (q_cookie q) cks = CNone
-  | Err _ => cks = [] /\ pending s' = pending s0
+  | Err _ => cks = [] /\ pending s' = pending s0 /\ (forall k, q_cookie q = CKey k -> view s' k = None)
   | Panic _ => False
   end.
 
@@ -156,7 +156,8 @@ Proof.
               split; [|split].
               ** intros k' H1 H2. rewrite Hvk by congruence. apply Gv.
               ** intros dd k'. rewrite Fpe, Gpe. auto.
-              ** unfold start_res. split; [reflexivity | congruence].
+              ** unfold start_res. split; [reflexivity|]. split; [congruence|].
+                 intros k0 Hk0. rewrite Eq in Hk0. injection Hk0 as <-. exact Hvo.
            ++ (* the plain case *)
               destruct (book_eff s1 o k d (q_addr q) (q_ua q) HI1 HG1 HD1) as (HI3 & HG3 & HD3 & Hv3 & Bpe & Bc & Bu).
               unfold start_post. cbn [fst snd].
